@@ -174,3 +174,6 @@ def check(ctx):
         if o.rule.startswith("C09."):
             o.rule = "C18.d/" + o.rule
     ctx.assume("user-supplied batch reductions and kernels behave as documented")
+    # ---------------- (e) the event-time monitors of different cells are distinct pooled monitors (shared with C15.f / C15.h)
+    ctx.import_clauses("C15", {"C15.f", "C15.h"}, "C18.e", minimum=4,
+                       pick=lambda s: s.startswith(("DelayAdjusted", "Kernel", "Observable", "alias", "MonitorPool")))
